@@ -232,7 +232,11 @@ func (x *Exec) evalIdent(name string, env *Env) Val {
 					x.enc.note("%s: contract name %q no longer exists in the caller; read as %s", x.name, name, sub)
 					env2 := *env
 					env2.atBlock = p.cur
-					return p.eval(ex, &env2)
+					if v, ok := tryEvalIn(p, ex, &env2); ok {
+						return v
+					}
+					// the loop the expression talks about lives in this helper
+					return x.eval(ex, env)
 				}
 			}
 		}
@@ -628,7 +632,7 @@ func (x *Exec) evalCall(n *SCall, env *Env) Val {
 			for _, in := range h.Instrs {
 				if nx, ok := in.(*ssa.Next); ok {
 					if rg, ok := nx.Iter.(*ssa.Range); ok {
-						k := fmt.Sprintf("L:iter_%s_%d", sanitize(rg.Name()), rg.Block().Index)
+						k := x.iterKey(rg)
 						return Val{T: e.heapGet(env.st, k), Sort: e.heapSort[k]}
 					}
 				}
@@ -877,4 +881,18 @@ func (x *Exec) resolveSort(s string) (string, types.Type) {
 		x.fail("unknown sort/type %q", s)
 	}
 	return x.enc.sortOf(t), t
+}
+
+// tryEvalIn evaluates ex in exec p; ok is false if it does not bind there.
+func tryEvalIn(p *Exec, ex SExpr, env *Env) (v Val, ok bool) {
+	defer func() {
+		if r := recover(); r != nil {
+			if _, isU := r.(unsupported); isU {
+				v, ok = Val{}, false
+				return
+			}
+			panic(r)
+		}
+	}()
+	return p.eval(ex, env), true
 }
